@@ -245,7 +245,30 @@ func (e *Engine) appendBuiltin(s *State, f *Frame, x *ssa.Call, args []Value, ar
 		root, _ := e.heapGet(s, a.Obj)
 		sa, isArr := getPath(root, a.Path).(*SymArrV)
 		if !isArr {
-			unsupp("append to symbolic-length non-byte slice")
+			// cell-array destination: case-split on its (few) feasible lengths
+			vals, complete := e.enumValues(s, a.Len, 8)
+			if !complete {
+				unsupp("append to a cell slice whose symbolic length has more than 8 feasible values")
+			}
+			if len(vals) == 0 {
+				s.Status = "infeasible"
+				return
+			}
+			for i, v := range vals {
+				st := s
+				if i > 0 {
+					st = s.Clone()
+				}
+				st.PC = append(st.PC, Eq(a.Len, I64(v)))
+				a2 := a
+				a2.Len = I64(v)
+				e.appendBuiltin(st, st.top(), x, []Value{a2, args[1]}, argv)
+				if i > 0 {
+					e.Pending = append(e.Pending, st)
+				}
+			}
+			s.top()
+			return
 		}
 		arr := sa.Arr
 		for i, v := range add {
